@@ -1,5 +1,5 @@
 #!/bin/sh
-# Runs the thorough tier of every registered check against /repo (two streams in parallel) and prints one summary
+# Runs the thorough tier of every registered check against /repo (three streams in parallel) and prints one summary
 # line per property; used with `vp run -- sh thorough_all.sh` from a snapshot of the committed /verif.
 export GOFLAGS=-mod=mod GOPROXY=off GOSUMDB=off GOTOOLCHAIN=local
 cd "$(dirname "$0")" || exit 2
@@ -15,7 +15,9 @@ stream() {
     grep "^INCONCLUSIVE\|^VIOLATION\|^UNCONFIRMED\|^TV-MISMATCH" "$GOSYM_OUT/$p.log" | head -5
   done
 }
-stream C17 C09 C01 C03 C10 C12 C08 C11 &
-stream C15 C16 C19 C02 C18 C20 C14 C04 C05 C06 C07 C13 &
+# three streams; the cheap checks first in the third one so that a time limit cuts only the largest
+stream C17 C01 &
+stream C15 C16 &
+stream C06 C07 C04 C13 C05 C14 C20 C08 C10 C12 C03 C18 C11 C19 C02 C09 &
 wait
 echo THOROUGH-DONE
